@@ -420,6 +420,10 @@ func runAllHops(ctx *core.Ctx) {
 }
 
 func replayHop(ctx *core.Ctx, hc *hopCase) {
+	if hc.Source != nil {
+		replaySource(ctx, hc.Source)
+		return
+	}
 	pool := &hopPool{envs: map[envKey]*hopEnv{}, ctx: ctx}
 	defer pool.closeAll()
 	e, err := pool.get(hc)
